@@ -66,6 +66,11 @@ MUTS = {
  "I6_float_numpy_as_int": ("_attributes.py", "        if isinstance(self.value, int):\n            return make_attribute(self._name, float(self.value))", "        if isinstance(self.value, (int, np.number)):\n            return make_attribute(self._name, float(int(self.value)))"),
  "I7_lazy_tuple": ("_attributes.py", "value=value if isinstance(value, _Ref) else tuple(value), name=name", "value=value if isinstance(value, (_Ref, tuple, range)) else tuple(value) if not hasattr(value, 'keys') and not hasattr(value, 'mapping') else value, name=name"),
  "I8_set_sorted": ("_attributes.py", "value=value if isinstance(value, _Ref) else tuple(value), name=name", "value=value if isinstance(value, _Ref) else tuple(value) if isinstance(value, (list, tuple)) else tuple(sorted(value)), name=name"),
+ # round 6b: argument defaults of rank 0; default-valued attributes on version-adapted nodes
+ "A1_adapter_drops_default_attrs": ("_adapt.py", "    source_model = onnx.helper.make_model(", "    _sch = onnx.defs.get_schema(proto.op_type, source_version, \"\")\n    for _a in list(proto.attribute):\n        _d = _sch.attributes.get(_a.name)\n        if _d is not None and _d.default_value.type == _a.type and _d.default_value.type in (1, 2, 3) and (_d.default_value.i, _d.default_value.f, _d.default_value.s) == (_a.i, _a.f, _a.s):\n            proto.attribute.remove(_a)\n    source_model = onnx.helper.make_model("),
+ "A2_argdefault_ascontiguous": ("_graph.py", "        elif isinstance(info, np.ndarray):\n            ty = Tensor(info.dtype, info.shape)", "        elif isinstance(info, np.ndarray):\n            info = np.ascontiguousarray(info)\n            ty = Tensor(info.dtype, info.shape)"),
+ "A3_argdefault_type_atleast1d": ("_graph.py", "            ty = Tensor(info.dtype, info.shape)\n            result[name] = Argument(", "            ty = Tensor(info.dtype, info.shape or (1,))\n            result[name] = Argument("),
+ "A4_adapter_drops_zero_ints": ("_adapt.py", "    source_model = onnx.helper.make_model(", "    for _a in list(proto.attribute):\n        if _a.type == 2 and _a.i == 0:\n            proto.attribute.remove(_a)\n    source_model = onnx.helper.make_model("),
  # new capture sites without a row: generated_capture_complete / generated_classes_complete must break
  "S1_new_attr_class": ("APPEND", "_attributes.py", "\n\nclass AttrInt64Matrix(Attr[list]):\n    _attribute_proto_type = AttributeProto.INTS\n\n    def _to_onnx_deref(self) -> AttributeProto:\n        return make_attribute(self._name, [x for r in self.value for x in r], attr_type=AttributeProto.INTS)\n"),
  "S2_new_array_function": ("APPEND", "_graph.py", "\n\ndef initializers(arrs: List[np.ndarray]) -> Tuple[Var, ...]:\n    return tuple(initializer(a) for a in arrs)\n"),
